@@ -185,6 +185,7 @@ func checkDefs() map[string]*CheckDef {
 					{Name: "structured", Pkg: prc, Entry: "VerifC16Structured", Params: map[string]int{"L": 1, "D": 2, "V": tierPick(tier, 2, 3)}, MustCover: []string{"configured value used", "default used", "absent without default"}, Opts: t},
 					{Name: "nested", Pkg: prc, Entry: "VerifC16Nested", MustCover: []string{"nested key present", "nested key absent"}, Opts: t},
 					{Name: "cyclic", Pkg: prc, Entry: "VerifC16Cyclic", MustCover: []string{"circular reference reported as an error", "resolution terminates"}, Opts: t},
+					rh("placeholder-in-wire-tag", "VerifC07", map[string]int{"K": 1, "PORDER": 0}, "name given through a placeholder"),
 					{Name: "total", Pkg: prc, Entry: "VerifC16Total", Params: map[string]int{"N": tierPick(tier, 5, 6), "M": 1}, MustCover: []string{"resolution terminates"}, Opts: t},
 				}
 			},
@@ -212,7 +213,8 @@ func checkDefs() map[string]*CheckDef {
 			Runs: func(tier string) []RunSpec {
 				return []RunSpec{
 					{Name: "register", Pkg: fac, Entry: "VerifC07Register", Params: map[string]int{"K": 3, "L": tierPick(tier, 1, 2)}, MustCover: []string{"duplicate rejected"}, Opts: ExecOpts{PermuteRange: true}},
-					rh("by-name", "VerifC07", map[string]int{"K": tierPick(tier, 2, 3)}, "named component found", "named component has an incompatible type", "optional point, no such component"),
+					rh("by-name", "VerifC07", map[string]int{"K": tierPick(tier, 2, 3)}, "named component found", "named component has an incompatible type", "optional point, no such component", "name given through a placeholder"),
+					rh("peers-of-the-holders-type", "VerifC07Peers", nil, "peer of the holder's own type"),
 				}
 			},
 			LevelText: "Bounded symbolic model checking of the by-name branch of dependencyAware, GetMetaByName, the real SingletonRegistry.RegisterSingleton/GetComponentName (names as symbolic bytes), furtherMatching and Inject: the field receives exactly the component registered under the requested name, an absent or incompatible name is an error for a required point and leaves an optional point untouched (never a panic), two distinct components are never both retrievable under one name.",
@@ -220,7 +222,11 @@ func checkDefs() map[string]*CheckDef {
 			Technique: techDefault, DesignRef: "DESIGN.md §3 C07"},
 		&CheckDef{ID: "C08", Title: "Qualifier and Primary narrowing",
 			Runs: func(tier string) []RunSpec {
-				return []RunSpec{rh("fields", "VerifC08", map[string]int{"K": 2, "SHAPES": 4, "NQ": tierPick(tier, 1, 2), "PORDER": 0}, "start ok", "start failed", "unique primary", "unique unnamed")}
+				return []RunSpec{
+					rh("fields", "VerifC08", map[string]int{"K": 2, "SHAPES": 4, "NQ": tierPick(tier, 1, 2), "PORDER": 0}, "start ok", "start failed", "unique primary", "unique unnamed"),
+					rh("func-tag-fields", "VerifC08", map[string]int{"K": 2, "ONLY": 4, "NQ": 1, "PORDER": 0}, "func-tag points", "unique primary"),
+					rh("three-candidates", "VerifC08", map[string]int{"K": 3, "ONLY": 5, "NQ": 1, "PORDER": 0}, "unique primary", "unique unnamed"),
+				}
 			},
 			LevelText: "Bounded symbolic model checking of the real furtherMatching processor (filterDependencies), TagArg.Has/Find and the by-type processors on holders with 2-3 wire fields (single, slice, an optional field without any candidate placed first): qualifiers of candidates and requested qualifier sets are symbolic bytes, primary/unnamed/named attributes and required bits are explored; each field is checked against an order-free per-field specification (only qualifying candidates, unique Primary wins, else unique unnamed, ties only inside the top rank).",
 			LevelNote: "Bounds: 2 candidates over {*vPA, *vPC, *vPP}, four holder shapes, requested set <=1 (2) one-byte qualifiers. Qualifier arguments are set through Property.SetArg (the tag grammar itself is C19).",
